@@ -151,6 +151,7 @@ Definition similar_value (pol : similar_id_policy) (apol : similar_att_policy) (
     match pol with
     | SimIdDict => match lo, ro with Some lv, Some rv => Some (JObj [(k_local_id, lv); (k_remote_id, rv)]) | _, _ => None end
     | SimIdLocal => lo
+    | SimIdLocalElseRemote => match lo with Some lv => Some lv | None => ro end    (* lcell[k] if k in lcell else rcell[k] *)
     end
   else if str_eqb k k_execution_count then Some JNull
   else if str_eqb k k_outputs then Some (JArr [])
